@@ -51,7 +51,18 @@ def r2_callbacks(repo: Repo, rep):
             rep.violation(R, ws.module.relpath, ws.fq, f"hook {hook} saves the weights", "hook missing", f"{hook} missing")
             continue
         rep.saw(fi)
-        saves = _saves(fi.node)
+        saves = []
+        seen_ids = set()
+        for p in paths(fi.node):
+            for e in p.events:
+                if e.value is None:
+                    continue
+                for c in ast.walk(e.value):
+                    if isinstance(c, ast.Call) and attr_chain(c.func) == "torch.save":
+                        key = (getattr(c, "lineno", 0), dump(c))
+                        if key not in seen_ids:
+                            seen_ids.add(key)
+                            saves.append(c)
         if not saves:
             rep.violation(R, fi.site(), fi.fq, f"{hook} writes the weight file directly", "no torch.save in this hook (buffered / deferred save)", "no torch.save")
             continue
@@ -110,7 +121,8 @@ def r2_callbacks(repo: Repo, rep):
             continue
         if due[0]:
             n += 1
-            ok = len(calls) == 1 and dump(kwarg(calls[0], "weights_only")) == "self.weights_only" and "self.path" in dump(calls[0].args[0]) and "self.name" in dump(calls[0].args[0]) and dump(calls[0].args[0]).endswith("'.ckpt'")
+            fp = dump(kwarg(calls[0], "filepath", 0)) if calls else ""
+            ok = len(calls) == 1 and dump(kwarg(calls[0], "weights_only", 1)) == "self.weights_only" and "self.path" in fp and "self.name" in fp and fp.endswith("'.ckpt'")
             rep.check(R, ok, fi.site(), fi.fq, "trainer.save_checkpoint(path/name.ckpt, weights_only=self.weights_only)", dump(calls[0])[:120] if calls else "no call", dump(calls[0])[:120] if calls else "")
         else:
             rep.check(R, not calls, fi.site(), fi.fq, "no save between the check intervals", str(len(calls)), "extra save")
@@ -154,6 +166,15 @@ def r4_solver_hooks(repo: Repo, rep):
         dep = [k for k in ("global_step", "current_epoch", "n_training_step", "batch_idx") if k in size]
         good = ok and size in ("torch.empty(self.trainer.max_steps)", "torch.empty(1000)") and not dep
         rep.check(R, good, fi.site(p.ret_node), fi.fq, "DataLoader(torch.empty(max_steps)) — independent of the resume position", size[:100], size[:100])
+    # Lightning restores the loop state (global_step) of a checkpoint after on_fit_start / setup and before on_train_start:
+    # the counter must be re-derived in a hook that runs after the restore
+    AFTER_RESTORE = ("on_train_start", "on_train_epoch_start", "on_train_batch_start", "training_step")
+    derive = [(name, m) for name, m in S.methods.items() for n in ast.walk(m.node)
+              if isinstance(n, ast.Assign) and any(dump(t) == "self.n_training_step" for t in n.targets) and "global_step" in dump(n.value)]
+    late = [name for name, m in derive if name in AFTER_RESTORE]
+    early = [name for name, m in derive if name not in AFTER_RESTORE]
+    rep.check(R, bool(late), S.module.relpath, S.fq, "the step counter is re-derived from trainer.global_step in a hook that runs after the checkpoint was restored "
+              f"({', '.join(AFTER_RESTORE)})", f"derived in {early or 'no hook'}" + (" only: global_step is still 0 there when resuming" if early else ""), f"counter derived in {early}")
     ots = S.methods.get("on_train_start")
     if ots is not None:
         for p in paths(ots.node):
